@@ -28,7 +28,9 @@ import (
 	"verifsim/simbuild"
 )
 
-const verifDir = "/verif"
+// verifDir is where this checkout of the machinery lives (VERIF_DIR lets a snapshot
+// of /verif run from another place, e.g. under `vp run`).
+var verifDir = env("VERIF_DIR", "/verif")
 
 type violation struct {
 	Tag  string `json:"tag"`
